@@ -53,7 +53,7 @@ def stamps(rng, n, midnight=False):
     out, t = [], base
     for _ in range(n):
         out.append(t)
-        t = t + dt.timedelta(seconds=rng.randint(31, 900))
+        t = t + dt.timedelta(seconds=rng.randint(100 if midnight else 31, 900))   # midnight: the second file is already past it
     return out
 
 
@@ -75,7 +75,30 @@ def judge_order(ctx, case, ds, names_created, recs, m):
 
 
 # ------------------------------------------------------------------------------------------------------------- Silixa
-def silixa_case(ctx, rng, variant, fault=None):
+def judge_times(ctx, what, case, ds, stamp_ns, fw, bw, double):
+    """C12 relations on a synthesised file set: span = configured acquisition time(s); time = end of forward (double) / midpoint
+    to 1 s (single); the stored stamp is the end of the forward (double) or of the only (single) measurement"""
+    g = {k: ds[k].values.astype("datetime64[ns]").astype("int64") for k in ("timestart", "time", "timeend")}
+    s = 10**9
+    fw, bw = np.asarray(fw, dtype=np.int64) * s, np.asarray(bw, dtype=np.int64) * s
+    bad = None
+    if not (np.all(g["timestart"] <= g["time"]) and np.all(g["time"] <= g["timeend"])):
+        bad = "timestart <= time <= timeend violated"
+    elif double:
+        if not np.array_equal(g["timeend"] - g["timestart"], fw + bw):
+            bad = f"timeend - timestart = {((g['timeend'] - g['timestart']) // s).tolist()} s, configured forward+backward = {((fw + bw) // s).tolist()} s"
+        elif not (np.array_equal(g["time"], stamp_ns) and np.array_equal(g["timestart"], stamp_ns - fw)):
+            bad = "time is not the stored end of the forward measurement / timestart not one forward acquisition earlier"
+    else:
+        if not np.array_equal(g["timeend"] - g["timestart"], fw):
+            bad = f"timeend - timestart = {((g['timeend'] - g['timestart']) // s).tolist()} s, configured acquisition time = {(fw // s).tolist()} s"
+        elif not (np.array_equal(g["timeend"], stamp_ns) and np.all(np.abs(g["time"] - (stamp_ns - fw // 2)) <= s)):
+            bad = "timeend is not the stored stamp or time is not the midpoint to 1 s"
+    if bad:
+        ctx.fail(f"{what}: " + bad, case)
+
+
+def silixa_case(ctx, rng, variant, fault=None, mode="values"):
     from dtscalibration.io.silixa import read_silixa_files
     r = np.random.default_rng(rng.randrange(2**31))
     n = rng.randint(1, 6 if ctx.quick else 12)
@@ -87,7 +110,7 @@ def silixa_case(ctx, rng, variant, fault=None):
     for k in range(n):
         tab = values(r, (npts, ncol), rng.choice(["wild", "plain"]))
         tab[:, 0] = x
-        recs.append(dict(ts=ts[k], ms=rng.randint(0, 999), table=tab,
+        recs.append(dict(ts=ts[k], ms=rng.randint(0, 999), table=tab, acq=[float(rng.randint(1, 600)) for _ in range(4)],
                          series=dict(acquisitionTime=round(rng.uniform(1, 600), 3), referenceTemperature=round(rng.uniform(-5, 40), 4),
                                      probe1Temperature=round(rng.uniform(-5, 40), 4), probe2Temperature=round(rng.uniform(-5, 40), 4))))
     if fault == "npoints" and n >= 2:
@@ -119,13 +142,20 @@ def silixa_case(ctx, rng, variant, fault=None):
                 ctx.fail(f"silixa {variant}: a file set with a {fault} fault was loaded instead of rejected", case)
             if fault == "npoints" and m["accept"]:
                 ctx.mismatch("Readers.stackAccept", case, "reject", "model accepts")
+        elif raised is not None and mode == "time":
+            ctx.skip("file set refused (judged by C11)")
         elif raised is not None:
             ctx.fail(f"silixa {variant}: valid file set refused: {raised}", case)
         else:
             if not m["accept"]:
                 ctx.mismatch("Readers.stackAccept", case, "model rejects", "loaded")
-            rank = judge_order(ctx, case, ds, names, recs, m)
-            if rank is not None:
+            rank = judge_order(ctx, case, ds, names, recs, m) if mode == "values" else [names.index(str(v)) for v in ds["filename"].values]
+            ch_fw, ch_bw = vendors.silixa_channels(variant)
+            if mode == "time":
+                stamp_ns = np.array([int((recs[k]["ts"] - dt.datetime(1970, 1, 1)).total_seconds()) * 10**9 + recs[k]["ms"] * 10**6 for k in rank])
+                judge_times(ctx, f"silixa {variant}", case, ds, stamp_ns, [recs[k]["acq"][ch_fw] for k in rank],
+                            [recs[k]["acq"][ch_bw] if ch_bw is not None else 0 for k in rank], ch_bw is not None)
+            elif rank is not None:
                 cols = ["x", "st", "ast", "tmp"] if ncol == 4 else ["x", "st", "ast", "rst", "rast", "tmp"]
                 bad = None
                 if not np.array_equal(ds.x.values, recs[rank[0]]["table"][:, 0]):
@@ -138,6 +168,11 @@ def silixa_case(ctx, rng, variant, fault=None):
                     want = np.array([recs[k]["series"][tag] for k in rank], dtype=np.float32)
                     if bad is None and not np.array_equal(np.asarray(ds[tag].values, dtype=np.float32), want):
                         bad = f"{tag}: not under its own file's time stamp"
+                for tag, ch in (("userAcquisitionTimeFW", ch_fw), ("userAcquisitionTimeBW", ch_bw)):
+                    if ch is not None and bad is None:
+                        want = np.array([recs[k]["acq"][ch] for k in rank], dtype=np.float32)
+                        if not np.array_equal(np.asarray(ds[tag].values, dtype=np.float32), want):
+                            bad = f"{tag}: not the acquisition time recorded for that channel in its own file"
                 double = ncol == 6
                 stamp_ns = np.array([int((recs[k]["ts"] - dt.datetime(1970, 1, 1)).total_seconds()) * 10**9 + recs[k]["ms"] * 10**6 for k in rank])
                 coord = "time" if double else "timeend"
@@ -214,7 +249,7 @@ def apsensing_case(ctx, rng, fault=None):
 
 
 # ------------------------------------------------------------------------------------------------------------- Sensornet
-def sensornet_case(ctx, rng, variant, fault=None):
+def sensornet_case(ctx, rng, variant, fault=None, mode="values"):
     from dtscalibration.io.sensornet import read_sensornet_files
     r = np.random.default_rng(rng.randrange(2**31))
     double = "double" in variant
@@ -262,6 +297,8 @@ def sensornet_case(ctx, rng, variant, fault=None):
         if fault == "npoints" and n >= 2:
             if raised is None:
                 ctx.fail(f"sensornet {variant}: a file set with files of different length was loaded instead of rejected", case)
+        elif raised is not None and mode == "time":
+            ctx.skip("file set refused (judged by C11)")
         elif raised is not None:
             known = None
             if flip and "conflicting sizes" in raised:
@@ -278,6 +315,13 @@ def sensornet_case(ctx, rng, variant, fault=None):
                 ctx.fail(f"sensornet {variant}: time axis not chronological: {fn}", case)
             else:
                 rank = [names.index(nm) for nm in fn]
+                if mode == "time":
+                    acq = lambda key: [int(float(recs[k]["meta"][key].replace(",", "."))) for k in rank]  # noqa: E731
+                    stamp_ns = np.array([int((recs[k]["ts"] - dt.datetime(1970, 1, 1)).total_seconds()) * 10**9 for k in rank])
+                    judge_times(ctx, f"sensornet {variant}", case, ds, stamp_ns, acq("forward acquisition time"), acq("reverse acquisition time"), double)
+                    ctx.case(sig=["sensornet-time", variant, n], nontrivial=True, sample=case)
+                    ctx.count(f"sensornet-time:{variant}")
+                    return
                 m = ctx.driver().call("reader.sensornet_cut", xraw=[rj(v) for v in x], add_internal=rj(add_internal), double=double,
                                       flip=flip, fibre_end=rj(fibre_end), **({"fiber_length": rj(fl)} if fl is not None else {}))
                 s, e = m["start"], m["stop"]
@@ -314,7 +358,8 @@ def sensornet_case(ctx, rng, variant, fault=None):
                                 if any(b - a != step for a, b in zip(src, src[1:])):
                                     bad = f"{cname}: rows are not a contiguous {'reversed ' if flip else ''}run of the recorded rows"
                     for tag, key in (("probe1Temperature", "T ext. ref 1 (°C)"), ("referenceTemperature", "T internal ref (°C)"),
-                                     ("userAcquisitionTimeFW", "forward acquisition time")):
+                                     ("userAcquisitionTimeFW", "forward acquisition time")) + (
+                                         (("userAcquisitionTimeBW", "reverse acquisition time"),) if double else ()):
                         want = np.array([float(recs[k]["meta"][key].replace(",", ".")) for k in rank])
                         if bad is None and not np.array_equal(np.asarray(ds[tag].values), want):
                             bad = f"{tag}: not under its own file's time stamp"
@@ -334,6 +379,8 @@ def sensortran_case(ctx, rng, fault=None, midnight=False):
     n = rng.randint(1, 6 if ctx.quick else 12)
     npts = rng.randint(3, 40 if ctx.quick else 400)
     extra = rng.randint(2, 12)
+    if midnight:
+        n = max(n, 3)
     ts = stamps(rng, n, midnight=midnight)
     x = np.arange(npts, dtype=np.float32) * np.float32(0.5)
     recs = []
